@@ -717,9 +717,14 @@ def check_tilt_wedge(ctx, rng):
 def check_ctf(ctx, rng):
     from tme.preprocessing.tilt_series import CTF
     shape = rand_shape(rng, lo=3, hi=10)
-    ctor = dict(shape=None, defocus_x=[float(rng.uniform(500, 30000))], angles=[0], sampling_rate=float(np.round(rng.uniform(1, 6), 2)),
+    dfx = [float(rng.uniform(500, 30000))]
+    if rng.random() < 0.5:
+        dfx = np.array(dfx, dtype=np.float64)     # what CTF.from_file stores: an ndarray the object must not modify
+    ctor = dict(shape=None, defocus_x=dfx, angles=[0], sampling_rate=float(np.round(rng.uniform(1, 6), 2)),
                 phase_shift=[float(rng.choice([0, 0.3]))], flip_phase=bool(rng.random() < 0.5), return_real_fourier=bool(rng.random() < 0.5),
                 amplitude_contrast=float(rng.choice([0.07, 0.1])))
+    import copy as _copy
+    ctor0 = _copy.deepcopy(ctor)          # the constructor arguments as the caller wrote them
     c = CTF(**ctor)
     before = snapshot(c)
     calls = [dict(shape=shape), dict(shape=rand_shape(rng, lo=3, hi=10), return_real_fourier=not ctor["return_real_fourier"]),
@@ -730,7 +735,7 @@ def check_ctf(ctx, rng):
         sink = []
         with record(CTF, ("weight",), sink):
             r = c(**kw)
-        fresh = CTF(**ctor)(**kw)
+        fresh = CTF(**_copy.deepcopy(ctor0))(**kw)
         ctx.spec("result independent of earlier calls (same object vs fresh object)", inp, same_result(r, fresh), key="CTF:stateful")
         ctx.spec("__call__ leaves the object's attributes unchanged", inp, snapshot(c) == before, key="CTF:attributes-mutated")
         if sink:
